@@ -130,10 +130,6 @@ var taExceptions = map[string]string{
 	"(*jsonata.goCallable).Call:error#1":                "[protocol] validateGoCallableFunc admits a second result only if its type implements error, and the value is tested !IsNil() in the same condition",
 	"jsonata.processGoCallableArg:jtypes.Convertible#1": "[value] inside the switch case argType.Implements(jtypes.TypeConvertible), where argType is arg.Type() read at the top of the function",
 	"jsonata.processOptionalArg:jtypes.Optional#1":      "[protocol] param.isOpt is set by newGoCallableParam only when a pointer to the parameter type implements jtypes.Optional, and processOptionalArg is only called for such parameters; reflect.New(param.t) is that pointer",
-	"jlib.sortNumberArray$1:float64#1":                  "[value] results only ever receives values returned by jtypes.AsNumber, which are float64",
-	"jlib.sortNumberArray$1:float64#2":                  "[value] as #1",
-	"jlib.sortStringArray$1:string#1":                   "[value] results only ever receives values returned by jtypes.AsString, which are strings",
-	"jlib.sortStringArray$1:string#2":                   "[value] as #1",
 	"(*jtypes.OptionalValue).Set:reflect.Value#1":       "[protocol] Set is called with the argument converted to the optional's underlying type (Type() = TypeValue), so v holds a reflect.Value",
 	"(*jtypes.OptionalCallable).Set:jtypes.Callable#1":  "[protocol] Set is called with the argument converted to the optional's underlying type (Type() = TypeCallable), so v holds a Callable",
 }
@@ -255,6 +251,10 @@ func runTA(c *Ctx, r *Result, rule string, fns []*ssa.Function, reach *Reach) in
 					}
 				}
 			}
+			// P3
+			if why == "" && sliceOfBoxed(ta.X, ta.AssertedType) {
+				why = "the operand is an element of a local slice into which this function (and the closures sharing it) only ever put boxed values of static type " + tname
+			}
 			switch {
 			case why != "":
 				o.Verdict, o.Reason = Discharged, why
@@ -346,4 +346,141 @@ func errNilDominates(call *ssa.Call, b *ssa.BasicBlock) bool {
 		}
 		return 0, true
 	})
+}
+
+// sliceOfBoxed (P3): x is s[i] where s is a slice variable of the enclosing function (possibly
+// captured by the closure doing the assertion) and every value ever put into that variable's
+// slice — by append or by an element store, anywhere in the function and its closures — is a
+// boxed value of static type T. Sorting or re-slicing the slice does not change the dynamic type
+// of its elements.
+func sliceOfBoxed(x ssa.Value, T types.Type) bool {
+	ld, ok := x.(*ssa.UnOp)
+	if !ok || ld.Op != token.MUL {
+		return false
+	}
+	ia, ok := ld.X.(*ssa.IndexAddr)
+	if !ok {
+		return false
+	}
+	sl, ok := ia.X.(*ssa.UnOp)
+	if !ok || sl.Op != token.MUL {
+		return false
+	}
+	cell := cellOf(sl.X)
+	if cell == nil {
+		return false
+	}
+	boxedT := func(v ssa.Value) bool {
+		mi, ok := v.(*ssa.MakeInterface)
+		return ok && types.Identical(mi.X.Type(), T)
+	}
+	// every function that can see the cell: its parent and the closures it is bound into
+	fns := []*ssa.Function{cell.Parent()}
+	fns = append(fns, cell.Parent().AnonFuncs...)
+	isCellLoad := func(v ssa.Value) bool {
+		u, ok := v.(*ssa.UnOp)
+		return ok && u.Op == token.MUL && cellOf(u.X) == cell
+	}
+	var fromCell func(v ssa.Value, depth int) bool // v is the cell's slice or a re-slice / append of it
+	fromCell = func(v ssa.Value, depth int) bool {
+		if depth > 6 {
+			return false
+		}
+		if isCellLoad(v) {
+			return true
+		}
+		switch y := v.(type) {
+		case *ssa.Slice:
+			return fromCell(y.X, depth+1)
+		case *ssa.Call:
+			if bi, ok := y.Call.Value.(*ssa.Builtin); ok && bi.Name() == "append" {
+				return fromCell(y.Call.Args[0], depth+1)
+			}
+		case *ssa.Phi:
+			for _, e := range y.Edges {
+				if !fromCell(e, depth+1) {
+					return false
+				}
+			}
+			return true
+		}
+		return false
+	}
+	for _, f := range fns {
+		for _, ins := range instrsIn(f) {
+			switch y := ins.(type) {
+			case *ssa.Store:
+				if cellOf(y.Addr) == cell {
+					// the variable is assigned: a fresh make, nil, or an append onto itself of boxed Ts
+					switch v := y.Val.(type) {
+					case *ssa.MakeSlice:
+					case *ssa.Const:
+						if !v.IsNil() {
+							return false
+						}
+					case *ssa.Call:
+						bi, ok := v.Call.Value.(*ssa.Builtin)
+						if !ok || bi.Name() != "append" || !fromCell(v.Call.Args[0], 0) {
+							return false
+						}
+						elems := variadicElems(v.Call.Args[1])
+						if len(elems) == 0 {
+							return false
+						}
+						for _, e := range elems {
+							if !boxedT(e) {
+								return false
+							}
+						}
+					default:
+						if !fromCell(y.Val, 0) {
+							return false
+						}
+					}
+					continue
+				}
+				// an element store s[i] = v
+				if ia2, ok := y.Addr.(*ssa.IndexAddr); ok && fromCell(ia2.X, 0) && !boxedT(y.Val) {
+					return false
+				}
+			}
+		}
+	}
+	// the address of the variable must not escape other than into the closures (bindings)
+	for _, ref := range *cell.Referrers() {
+		switch ref.(type) {
+		case *ssa.Store, *ssa.UnOp, *ssa.MakeClosure, *ssa.DebugRef:
+		default:
+			return false
+		}
+	}
+	return true
+}
+
+// cellOf: the local variable cell behind an address: the Alloc itself, or the Alloc a closure's
+// free variable is bound to.
+func cellOf(addr ssa.Value) *ssa.Alloc {
+	switch a := addr.(type) {
+	case *ssa.Alloc:
+		return a
+	case *ssa.FreeVar:
+		fn := a.Parent()
+		idx := -1
+		for i, fv := range fn.FreeVars {
+			if fv == a {
+				idx = i
+			}
+		}
+		if idx < 0 || fn.Parent() == nil {
+			return nil
+		}
+		for _, ins := range instrsIn(fn.Parent()) {
+			if mc, ok := ins.(*ssa.MakeClosure); ok && mc.Fn == ssa.Value(fn) && idx < len(mc.Bindings) {
+				if al, ok := mc.Bindings[idx].(*ssa.Alloc); ok {
+					return al
+				}
+			}
+		}
+	}
+	return nil
 }
